@@ -58,6 +58,7 @@ theorem httpStreamSend_gone (n : Nat) (cfg : Cfg) (st : St) (e : Http.Ev) (h : G
   · exact h
   · exact maybeRecycle_gone n st h
   · exact h
+  · exact h
 
 theorem wsStreamSend_gone (n : Nat) (cfg : Cfg) (st : St) (e : Ws.Ev) (h : Gone n st) : Gone n (wsStreamSend cfg st e).1 := by
   cases e <;> simp only [wsStreamSend]
@@ -67,6 +68,7 @@ theorem wsStreamSend_gone (n : Nat) (cfg : Cfg) (st : St) (e : Ws.Ev) (h : Gone 
   · exact h
   · exact h
   · exact maybeRecycle_gone n st h
+  · exact h
   · exact h
   · exact h
 
@@ -189,6 +191,9 @@ theorem onLibEvBody_gone (n : Nat) (cfg : Cfg) (st : St) (o0 : List Out) (e : Li
   | wsData d evs =>
     simp only [onLibEvBody] at hs
     (repeat' split at hs) <;> (try (cases hs; done))
+    · simp only [Option.some.injEq, Prod.mk.injEq] at hs
+      obtain ⟨rfl, _⟩ := hs
+      exact runWsEvs_gone n cfg _ _ (setObj_gone n _ _ _ h)
     · simp only [Option.some.injEq, Prod.mk.injEq] at hs
       obtain ⟨rfl, _⟩ := hs
       exact runWsEvs_gone n cfg _ _ (setObj_gone n _ _ _ h)
